@@ -401,6 +401,15 @@ func (fi *FuncInfo) beyond(g lin.Con) string {
 	}
 	for _, t := range g.F.Terms() {
 		v := fi.terms[t].v
+		// the length of one ELEMENT of a strings.Split / bytes.Split result depends on the
+		// contents of the string; E1 has no model of contents. If an in-module predicate
+		// was applied to that string (or the string it was derived from) on the way here, the
+		// contents were validated by code whose meaning this prover does not read.
+		if fi.terms[t].kind == tLen {
+			if why := fi.contentValidated(v); why != "" {
+				return why
+			}
+		}
 		// strip len(...) of loads etc.: look at the value itself
 		for d := 0; d < 4; d++ {
 			if sl, ok := v.(*ssa.Slice); ok {
@@ -593,4 +602,72 @@ func (w *World) SliceToArrayFits(x *ssa.SliceToArrayPointer) Outcome {
 		return Outcome{Proved: true, Goals: []string{c.Describe(g)}}
 	}
 	return Outcome{Proved: false, Failed: c.Describe(g), Facts: c.FactStrings(g, 16)}
+}
+
+// contentValidated: v is an element of a Split result whose source string was
+// handed to an in-module function returning bool (a validator) earlier in this
+// function; returns a description, or "".
+func (fi *FuncInfo) contentValidated(v ssa.Value) string {
+	// element load: *(&split[i])
+	ld, ok := v.(*ssa.UnOp)
+	if !ok || ld.Op != token.MUL {
+		return ""
+	}
+	ia, ok := ld.X.(*ssa.IndexAddr)
+	if !ok {
+		return ""
+	}
+	call, ok := ia.X.(*ssa.Call)
+	if !ok {
+		return ""
+	}
+	switch staticName(call.Common()) {
+	case "strings.Split", "strings.SplitN", "bytes.Split", "bytes.SplitN", "strings.Fields":
+	default:
+		return ""
+	}
+	// the string and everything it was derived from by library calls
+	srcs := map[ssa.Value]bool{}
+	var walk func(x ssa.Value, d int)
+	walk = func(x ssa.Value, d int) {
+		if x == nil || srcs[x] || d > 6 {
+			return
+		}
+		srcs[x] = true
+		if c2, ok := x.(*ssa.Call); ok {
+			for _, a := range c2.Common().Args {
+				if isSeq(a.Type()) {
+					walk(a, d+1)
+				}
+			}
+		}
+		if cv, ok := x.(*ssa.Convert); ok {
+			walk(cv.X, d+1)
+		}
+	}
+	walk(call.Common().Args[0], 0)
+	for _, b := range fi.Fn.Blocks {
+		if !b.Dominates(call.Block()) {
+			continue
+		}
+		for _, in := range b.Instrs {
+			c2, ok := in.(*ssa.Call)
+			if !ok || c2 == call {
+				continue
+			}
+			f := c2.Common().StaticCallee()
+			if f == nil || !fi.W.P.InModule(f) || f.Signature.Results().Len() != 1 {
+				continue
+			}
+			if bt, ok := f.Signature.Results().At(0).Type().Underlying().(*types.Basic); !ok || bt.Kind() != types.Bool {
+				continue
+			}
+			for _, a := range c2.Common().Args {
+				if srcs[a] {
+					return "the goal is about the length of a piece of a string whose contents were validated by " + f.Name() + "(…), an in-module predicate over the string's characters that this prover does not interpret"
+				}
+			}
+		}
+	}
+	return ""
 }
